@@ -43,6 +43,18 @@ impl Typstyle {
         };
         // Infer indent from context.
         let indent = utils::count_spaces_after_last_newline(source.text(), range.start);
+        // The body of a list, enum or term item is indented one unit deeper than the marker of the item.
+        let in_item = node.parent().is_some_and(|parent| {
+            matches!(
+                parent.kind(),
+                SyntaxKind::ListItem | SyntaxKind::EnumItem | SyntaxKind::TermItem
+            )
+        });
+        let doc = if in_item {
+            doc.nest(self.config.tab_spaces as isize)
+        } else {
+            doc
+        };
         let res = doc
             .nest(indent as isize)
             .pretty(self.config.max_width)
